@@ -52,7 +52,7 @@ pub fn run(ctx: &Ctx, reg: &Registry, rep: &mut Report) {
             // seed-rotated strided pass (1/16 of the space, 1/4 for sqrt): sparse defects that no
             // generator class aims at (a few dozen inputs out of 2^32) are met with high
             // probability on every run, not only in the thorough tier
-            if ctx.quick() {
+            if ctx.quick() && matches!(ctx.prop.as_str(), "C03" | "C06" | "C07" | "C08" | "C09") {
                 let stride = if ctx.prop == "C06" { 4 } else { 16 };
                 for (i, op) in reg.for_prop(&ctx.prop) {
                     if op.arity() == 1 && op.fast.is_some() && !op.stub && (op.space_log2() - 32.0).abs() < 1e-9 {
@@ -84,7 +84,18 @@ pub fn run(ctx: &Ctx, reg: &Registry, rep: &mut Report) {
         "C18" => poly::run(ctx, rep),
         "C12" => {
             let (exh, samples) = if ctx.quick() { (16.0, 1 << 24) } else { (32.0, 1 << 28) };
-            let plans = sweep::plan_for(reg, "C12", exh, samples);
+            let mut plans = sweep::plan_for(reg, "C12", exh, samples);
+            if ctx.quick() {
+                for (i, op) in reg.for_prop("C12") {
+                    if op.arity() == 1 && op.fast.is_some() && (op.space_log2() - 32.0).abs() < 1e-9 {
+                        plans.push(Plan {
+                            op: i,
+                            mode: Mode::Strided { stride: 16, offset: crate::rng::mix64(ctx.seed ^ 0x57_1de) },
+                            name: format!("{} (strided 1/16)", op.name),
+                        });
+                    }
+                }
+            }
             run_plans(ctx, reg, plans, rep);
             quire::run_c12(ctx, rep);
         }
